@@ -507,6 +507,7 @@ def biv_extra(ctx, which):
     E3.biv_ambient(ctx, meths)
     E3.biv_failed_query(ctx, meths)
     E3.biv_results_owned(ctx, meths)
+    E3.gumbel_independence_member(ctx, meths)
     if which == 'C09':
         E3.biv_refused_refit(ctx)
 
@@ -631,6 +632,9 @@ def uni_const_history_replay(cname, const, order):
                 pa, pb = np.asarray(m.probability_density(xs), dtype=float), ref.evaluate(xs)
                 if not np.allclose(pa, pb, rtol=1e-9, atol=1e-12):
                     bad.append(f'probability_density {pa.tolist()[:4]} vs {pb.tolist()[:4]}')
+                la = np.asarray(m.log_probability_density(xs), dtype=float)
+                if not np.allclose(la, np.log(pb), rtol=1e-9, atol=1e-12):
+                    bad.append(f'log_probability_density {la.tolist()[:4]} vs log of the kernel density {np.log(pb).tolist()[:4]}')
                 q = np.asarray(m.percent_point(qs), dtype=float)
                 cq = np.array([ref.integrate_box_1d(-np.inf, t) for t in q])
                 if not np.allclose(cq, qs, atol=1e-5):
